@@ -951,8 +951,21 @@ Coalesce drawCoalesce(pbt::Src &src, const Stream &s, bool frameAligned)
   // a close frame behind the 101 is only judged when response + frames are certainly ONE read
   if (!frameAligned && s.hasClose && co.prefixLen > s.starts.back() && co.prefixLen > 16000) co.prefixLen = s.starts.back();
   if (!frameAligned && src.coin(1, 3)) co.cutPermille = static_cast<int>(src.range(1, 999));
-  // toward the server the HTTP layer looks for the end of a further request in what follows
-  if (frameAligned && s.wire.substr(0, co.prefixLen).find("\r\n\r\n") != std::string::npos) co.prefixLen = 0;
+  if (frameAligned)
+  {
+    // Request + frames must arrive in ONE read (one TCP segment, far below the engine's read chunk):
+    // frames in a LATER read that races the worker's upgrade are the early-sender race the harness
+    // does not generate (RFC 6455 4.1: a client waits for the 101 before it sends).
+    while (co.prefixLen > 16000)
+    {
+      std::size_t best = 0;
+      for (std::size_t e : ends)
+        if (e <= 16000 && e > best) best = e;
+      co.prefixLen = best;
+    }
+    // the HTTP layer looks for the end of a further request in what follows the first one
+    if (s.wire.substr(0, co.prefixLen).find("\r\n\r\n") != std::string::npos) co.prefixLen = 0;
+  }
   return co;
 }
 
@@ -960,7 +973,8 @@ Coalesce drawCoalesce(pbt::Src &src, const Stream &s, bool frameAligned)
 struct PrefixEffects
 {
   std::size_t msgs = 0, pongs = 0;
-  bool close = false;
+  bool close = false;         // the endpoint's close frame must appear on the wire (echo or 1007)
+  bool closeCallback = false; // ... and, for the peer's close frame, the close callback must have run
   bool any() const { return msgs || pongs || close; }
 };
 PrefixEffects effectsOfPrefix(const Stream &s, std::size_t prefixLen)
@@ -978,6 +992,7 @@ PrefixEffects effectsOfPrefix(const Stream &s, std::size_t prefixLen)
   for (std::size_t i = 0; i < m.framesModelled && i < in.size(); ++i)
     if (in[i].opcode == refws::OpPing) ++e.pongs;
   e.close = m.closed || m.invalidText;
+  e.closeCallback = m.closed;
   return e;
 }
 
@@ -992,12 +1007,22 @@ std::size_t countPongs(const std::string &rx)
 
 /// The peer stays SILENT behind the handshake write and waits for what the frames in it must
 /// cause. An endpoint that leaves them in a buffer "for the next read" never gets that read.
-template <class MsgCount>
-bool awaitPrefixEffects(pbt::Case &c, const std::string &side, c18net::RawConn &conn, MsgCount deliveredSoFar, const PrefixEffects &e, const std::string &how,
+/// `progress()` returns {messages delivered, close callbacks} so far. The close callback is part
+/// of the wait because the server processes what followed the upgrade request on a WORKER thread:
+/// there the connection's EOF does not imply that the callbacks have run.
+template <class Progress>
+bool awaitPrefixEffects(pbt::Case &c, const std::string &side, c18net::RawConn &conn, Progress progress, const PrefixEffects &e, const std::string &how,
                         double timeoutSec = 30.0)
 {
   if (!e.any()) return true;
-  bool ok = conn.readUntil([&] { return deliveredSoFar() >= e.msgs && countPongs(conn.rx) >= e.pongs && (!e.close || wireHasClose(conn.rx)); }, timeoutSec);
+  auto deliveredSoFar = [&] { return progress().first; };
+  bool ok = conn.readUntil(
+    [&]
+    {
+      auto pr = progress();
+      return pr.first >= e.msgs && countPongs(conn.rx) >= e.pongs && (!e.close || wireHasClose(conn.rx)) && (!e.closeCallback || pr.second >= 1);
+    },
+    timeoutSec);
   if (ok)
   {
     c.label("frames in the same write as the opening handshake were processed without further input");
@@ -1143,12 +1168,12 @@ PBT_PROPERTY(server_wire)
   if (co.prefixLen)
   {
     c.label("upgrade request and first frames in one write");
-    auto delivered = [&]
+    auto progress = [&]
     {
       std::lock_guard<std::mutex> g(srv->log.m);
-      return srv->log.o.msgs.size();
+      return std::make_pair(srv->log.o.msgs.size(), static_cast<std::size_t>(srv->log.o.closeCallbacks));
     };
-    if (!awaitPrefixEffects(c, "server", conn, delivered, effectsOfPrefix(s, co.prefixLen), "upgrade request + " + std::to_string(co.prefixLen) + " bytes of frames in one write")) return;
+    if (!awaitPrefixEffects(c, "server", conn, progress, effectsOfPrefix(s, co.prefixLen), "upgrade request + " + std::to_string(co.prefixLen) + " bytes of frames in one write")) return;
   }
 
   LoopEndpoint ep;
@@ -1330,10 +1355,10 @@ struct ClientUnderTest
     if (!tail.empty()) conn.awaitRead();
     return true;
   }
-  std::size_t deliveredSoFar()
+  std::pair<std::size_t, std::size_t> progress()
   {
     std::lock_guard<std::mutex> g(log->m);
-    return log->o.msgs.size();
+    return std::make_pair(log->o.msgs.size(), static_cast<std::size_t>(log->o.closeCallbacks));
   }
   Outcome outcome()
   {
@@ -1454,7 +1479,7 @@ bool awaitClientPrefix(pbt::Case &c, ClientUnderTest &cut, const Stream &s, cons
   if (!co.prefixLen) return true;
   c.label("101 response and first frames in one write");
   return awaitPrefixEffects(
-    c, "client", cut.conn, [&] { return cut.deliveredSoFar(); }, effectsOfPrefix(s, co.prefixLen),
+    c, "client", cut.conn, [&] { return cut.progress(); }, effectsOfPrefix(s, co.prefixLen),
     "101 response + " + std::to_string(co.prefixLen) + " bytes of frames in one write" + where, timeoutSec);
 }
 
@@ -2952,12 +2977,12 @@ PBT_REGRESSION(server_frames_with_upgrade_request)
   c18net::RawConn conn;
   ws::SessionId sid = 0;
   if (!connectAndUpgrade(c, *srv, conn, "dGhlIHNhbXBsZSBub25jZQ==", sid, true, s.wire)) return;
-  auto delivered = [&]
+  auto progress = [&]
   {
     std::lock_guard<std::mutex> g(srv->log.m);
-    return srv->log.o.msgs.size();
+    return std::make_pair(srv->log.o.msgs.size(), static_cast<std::size_t>(srv->log.o.closeCallbacks));
   };
-  if (!awaitPrefixEffects(c, "server", conn, delivered, effectsOfPrefix(s, s.wire.size()), "upgrade request + all frames in one write", 90.0)) return;
+  if (!awaitPrefixEffects(c, "server", conn, progress, effectsOfPrefix(s, s.wire.size()), "upgrade request + all frames in one write", 90.0)) return;
   conn.writeSegment(refws::encode(maskedFrame(src, refws::OpClose, std::string("\x03\xe8", 2), true)));
   conn.readUntil([&] { return wireHasClose(conn.rx); }, kCloseWait);
   conn.shutdownWrite();
